@@ -6,7 +6,7 @@
    is assumed to come with an update-path variable that covers its change (that is the tag-level
    protocol's side). The remaining expression forms (calls, object / array literals), the tag-level protocol (if / for / template / slot nodes, list diffing) are
    decided by the behavioural correspondence only; see DESIGN.md. *)
-From GE Require Import Model.Upt Proofs.UptProofs.
+From GE Require Import Model.Upt Proofs.UptProofs Proofs.UptObjProofs.
 Import ListNotations.
 
 (* If the update-path tree covers the difference between the old and the new data, the hoisted
@@ -40,6 +40,21 @@ Proof.
   destruct (gen_sound scopes lit_str sval root hv ev0 ev1 Hc Hs e Hf st) as [_ H]. exact H.
 Qed.
 Print Assumptions C06_path_relates_values.
+
+(* the same for the larger fragment with object literals (named fields) and array literals
+   (plain items): the heads Q.b({k: tree}) / Q.a([tree, , tree]) keep keys and positions *)
+Theorem C06_guard_sound_literals :
+  forall (scopes : list scope_var) (lit_str : str -> str) (sval : str -> upt) (root : str -> upt)
+         (hv : str -> option val) (ev0 ev1 : env),
+  covers (UNode root) (Some (e_data ev0)) (Some (e_data ev1)) ->
+  (forall i, covers (scope_tree scopes sval i) (Some (nth i (e_scopes ev0) VUndef)) (Some (nth i (e_scopes ev1) VUndef))) ->
+  forall e n, frag2 ev0 ev1 e ->
+  let '(st, v, r) := prepare scopes lit_str e (mk_gst n) in
+  hv_ok (hoists st) hv ev1 ->
+  guard_den scopes sval root hv r = false ->
+  eval ev0 e = eval ev1 e.
+Proof. intros scopes lit_str sval root hv ev0 ev1 Hc Hs. exact (guard_sound2 scopes lit_str sval root hv ev0 ev1 Hc Hs). Qed.
+Print Assumptions C06_guard_sound_literals.
 
 (* a tree that covers a difference still covers it below any property (what lets the runtime
    hand sub-trees to list items and template data) *)
@@ -90,6 +105,27 @@ Module Witness.
   Qed.
   Example frag_e : frag e.
   Proof. repeat constructor. Qed.
+
+  (* {x: a, y: c}.x with only c marked: skipped; [1, a, 'z'][1] with a marked: re-evaluated (the array
+     tree is positional, the object tree keeps its keys) *)
+  Definition e_obj : expr := EMember (EObj (ONamed (lit "x") (EField (lit "a")) (ONamed (lit "y") (EField (lit "c")) ONil))) (lit "x").
+  Definition e_arr : expr := EIndex (EArr (ANormal (EInt 1) (ANormal (EField (lit "a")) (ANormal (EStr (lit "z")) ANil)))) (EInt 1).
+  Definition u_c : str -> upt := of_list [(lit "c", UAll)].
+  Definition u_a : str -> upt := of_list [(lit "a", UAll)].
+  Definition prep_of (x : expr) := prepare [] (fun s => s) x (mk_gst 0).
+  Definition hv_for (x : expr) (d : val) (i : str) : option val :=
+    match find (fun p => str_eqb (fst p) i) (hoists (fst (fst (prep_of x)))) with
+    | Some (_, he) => eval {| e_data := d; e_scopes := [] |} he
+    | None => None
+    end.
+  Example obj_member_skipped : guard_den [] (fun _ => UNone) u_c (hv_for e_obj d0) (snd (prep_of e_obj)) = false.
+  Proof. vm_compute. reflexivity. Qed.
+  Example obj_member_taken : guard_den [] (fun _ => UNone) u_a (hv_for e_obj d0) (snd (prep_of e_obj)) = true.
+  Proof. vm_compute. reflexivity. Qed.
+  Example arr_item_taken : guard_den [] (fun _ => UNone) u_a (hv_for e_arr d0) (snd (prep_of e_arr)) = true.
+  Proof. vm_compute. reflexivity. Qed.
+  Example arr_item_skipped : guard_den [] (fun _ => UNone) u_c (hv_for e_arr d0) (snd (prep_of e_arr)) = false.
+  Proof. vm_compute. reflexivity. Qed.
 
   (* a for item: {{ item.a }} under the item's update-path variable *)
   Definition item_scopes : list scope_var :=
